@@ -488,6 +488,10 @@ def run_history(fam, kind, rng, rec, h):
                             range(nk), 4)])
                     elif fam.has_weighted and rng.random() < .3:
                         x = fam.fn('weightedUnion', impl)(c, o)
+                    elif rng.random() < .5:
+                        # the operator forms (slots of their own)
+                        x = (c | o) if fn == 'union' else (c & o) \
+                            if fn == 'intersection' else (c - o)
                     else:
                         x = fam.fn(fn, impl)(c, o)
                     y = list(x[1].keys()) if isinstance(x, tuple) else list(
